@@ -121,7 +121,7 @@ func genC08Route(rng *Rng, sc *Scenario, k int, faulty bool) (RegOp, Req) {
 	}
 	main = append(main, Action{Op: "obs"})
 	sc.Handlers[op.H] = main
-	rq := Req{Method: op.Methods[0], Path: op.Path, Plain: rng.Chance(1, 8)}
+	rq := Req{Method: op.Methods[0], Path: op.Path, Plain: rng.Chance(1, 8), HTTP10: rng.Chance(1, 6), Served: rng.Chance(1, 3), Expired: rng.Chance(1, 20)}
 	if faulty {
 		nf := rng.Range(1, 2)
 		for i := 0; i < nf; i++ {
